@@ -495,7 +495,12 @@ func (g *Gen) Expr(ty Ty, d int) *Expr {
 		}
 		return CallE(tool(), "Neg", TBool, reflect.Bool, g.arg(TBool, d-1))
 	case k < 13 && g.Strs:
-		fn := []string{"Contains", "HasPrefix", "HasSuffix", "In"}[r.Intn(4)]
+		fn := []string{"Contains", "HasPrefix", "HasSuffix", "In", "MatchString"}[r.Intn(5)]
+		if fn == "MatchString" {
+			// several different patterns in one rule set (a pattern remembered across calls must
+			// not be used for another one)
+			return CallE(g.recvStr(d-1), fn, TBool, reflect.Bool, LitS(regexPatterns[r.Intn(len(regexPatterns))]))
+		}
 		if fn == "In" {
 			return CallE(g.recvStr(d-1), fn, TBool, reflect.Bool, g.Expr(TStr, 0), g.Expr(TStr, 0), g.strLit())
 		}
@@ -747,3 +752,5 @@ func mkArg(e *Expr) *Expr {
 	}
 	return Bin("+", TStr, LitS(""), e)
 }
+
+var regexPatterns = []string{"^a", "b$", "[0-9]+", "k.", "^$", "(a|b)+", "^[a-z]*$", "\\s", "é", "x y", "^.{2}$"}
